@@ -6,9 +6,12 @@ package main
 import (
 	"bytes"
 	"context"
+	"crypto/aes"
+	"crypto/cipher"
 	"encoding/binary"
 	"errors"
 	"fmt"
+	"hash/adler32"
 	"io"
 	"net"
 	"os"
@@ -19,6 +22,7 @@ import (
 
 	"github.com/gotd/td/bin"
 	"github.com/gotd/td/mtproxy"
+	"github.com/gotd/td/mtproxy/faketls"
 	"github.com/gotd/td/mtproxy/obfuscated2"
 	"github.com/gotd/td/proto/codec"
 	"github.com/gotd/td/transport"
@@ -96,6 +100,49 @@ func (s *swapReader) Read(p []byte) (int, error) {
 		return 0, io.EOF
 	}
 	return s.r.Read(p)
+}
+
+// logWriter records the argument of every Write call before passing it on
+type logWriter struct {
+	w    io.Writer
+	Args [][]byte
+}
+
+func (l *logWriter) Write(p []byte) (int, error) {
+	l.Args = append(l.Args, append([]byte{}, p...))
+	return l.w.Write(p)
+}
+
+// sizeLogReader records the buffer size of every Read call
+type sizeLogReader struct {
+	r     io.Reader
+	Sizes []int
+}
+
+func (l *sizeLogReader) Read(p []byte) (int, error) {
+	l.Sizes = append(l.Sizes, len(p))
+	return l.r.Read(p)
+}
+
+func reservedInit(init []byte) bool {
+	if init[0] == 0xef {
+		return true
+	}
+	switch binary.LittleEndian.Uint32(init[0:4]) {
+	case 0x44414548, 0x54534f50, 0x20544547, 0x4954504f, 0x02010316, 0xdddddddd, 0xeeeeeeee:
+		return true
+	}
+	return binary.LittleEndian.Uint32(init[4:8]) == 0
+}
+
+func ctrKeystream(key, iv []byte, n int) []byte {
+	b, err := aes.NewCipher(key)
+	if err != nil {
+		return nil
+	}
+	out := make([]byte, n)
+	cipher.NewCTR(b, iv).XORKeyStream(out, out)
+	return out
 }
 
 type oneListener struct {
@@ -739,6 +786,93 @@ func main() {
 		}
 	}
 
+	// fullStack: codec over obfuscated2 over FakeTLS over a chunking connection (the mtproxy dial path
+	// with an ee-secret, after the TLS hello), server side FakeTLS -> transport.ObfuscatedListener ->
+	// transport.Listen with auto-detection.  The composed model replays every layer's bytes.
+	fullStack := func(cid int, dc int, ps [][]byte) {
+		c.Obs.Evaluations++
+		orand := c.Rng.Bytes(64)
+		for reservedInit(orand) {
+			orand = c.Rng.Bytes(64)
+		}
+		var wire bytes.Buffer
+		ftC := faketls.NewFakeTLS(c.Rng, rwPair{bytes.NewReader(nil), &wire})
+		xlog := &logWriter{w: ftC} // FakeTLS.Write arguments: obfuscated2 header, then ciphertext
+		o := obfuscated2.NewObfuscated2(bytes.NewReader(orand), rwPair{bytes.NewReader(nil), xlog})
+		tag := tx.NewCodec(cid, 0).(interface{ ObfuscatedTag() [4]byte }).ObfuscatedTag()
+		if err := o.Handshake(tag, dc, mtproxy.Secret{}); err != nil {
+			c.Violate("concurrent-setup", "obfuscated2 handshake failed: "+err.Error(), -1, 0, nil)
+			return
+		}
+		wlog := &logWriter{w: o} // conn.Write calls of the codec on the obfuscated connection
+		w := tx.NewCodec(cid, 0)
+		var rnds [][]byte
+		for _, p := range ps {
+			before := len(wlog.Args)
+			if err := w.Write(wlog, &bin.Buffer{Buf: append([]byte{}, p...)}); err != nil {
+				c.Violate("valid-write-refused-"+tx.CodecNames[cid], err.Error(), -1, 0, nil)
+				return
+			}
+			rnd := make([]byte, 4)
+			if cid == tx.Padded {
+				fr := bytes.Join(wlog.Args[before:], nil)
+				copy(rnd, fr[4+len(p):])
+			}
+			rnds = append(rnds, rnd)
+		}
+		// server
+		ftS := faketls.NewFakeTLS(nil, rwPair{&tx.ChunkReader{Data: wire.Bytes(), Rng: c.Rng.Fork()}, io.Discard})
+		sl := &sizeLogReader{r: ftS}
+		mc := &memConn{r: sl}
+		var frames [][]byte
+		k, arg := tx.KOk, int64(0)
+		p, pv := hx.Recover(func() {
+			conn, err := transport.Listen(transport.ObfuscatedListener(&oneListener{c: mc})).Accept()
+			if err != nil {
+				k, arg = tx.Project(err)
+				return
+			}
+			b := &bin.Buffer{}
+			for {
+				if err := conn.Recv(context.Background(), b); err != nil {
+					k, arg = tx.Project(err)
+					return
+				}
+				frames = append(frames, append([]byte{}, b.Buf...))
+			}
+		})
+		if p {
+			k = tx.KPanic
+		}
+		// oracle inputs for the model: keys / ivs from the init the client used, AES-CTR keystreams
+		total := 64
+		for _, a := range wlog.Args {
+			total += len(a)
+		}
+		rev := make([]byte, 48)
+		for i := range rev {
+			rev[i] = orand[55-i]
+		}
+		kE, ivE, kD, ivD := orand[8:40], orand[40:56], rev[:32], rev[32:48]
+		oracle := fmt.Sprintf("(mk_oracle %s %s %s %s %s %s)", tx.HB(kE), tx.HB(ivE), tx.HB(kD), tx.HB(ivD), tx.HB(ctrKeystream(kE, ivE, total)), tx.HB(nil))
+		js := map[string]interface{}{"full_stack": cid, "dc": dc, "payloads": len(ps)}
+		sh, ix := c.Case(fmt.Sprintf("(CStack %d %s %s %s %s %s %s %s %d %d %s %s (%d, %s))", cid, hbList(rnds), hbList(ps), tx.HB(orand), hx.Z(int64(dc)), oracle,
+			hbList(wlog.Args), hbList(xlog.Args), wire.Len(), adler32.Checksum(wire.Bytes()), hx.IntList(sl.Sizes), hbList(frames), k, hx.Z(arg)), js)
+		c.Count(fmt.Sprintf("full-stack:%s", tx.CodecNames[cid]))
+		c.Nontrivial(fmt.Sprintf("stack/%d/%d/%x", cid, dc, orand[:8]))
+		if verbose {
+			fmt.Printf("replay: %s over obfuscated2 over FakeTLS: %d frames sent, %d bytes on the wire, server got %d frames then %s %v\n", tx.CodecNames[cid], len(ps), wire.Len(), len(frames), tx.KindNames[k], pv)
+		}
+		ok := !p && len(frames) == len(ps) && k == tx.KEof
+		for i := 0; ok && i < len(ps); i++ {
+			ok = bytes.Equal(frames[i], ps[i])
+		}
+		if !ok {
+			c.Violate("stacked-transport-frames-not-delivered", fmt.Sprintf("%s over obfuscated2 over FakeTLS: sent %d frames, the listener delivered %d then %s(%d) %v",
+				tx.CodecNames[cid], len(ps), len(frames), tx.KindNames[k], arg, pv), sh, ix, js)
+		}
+	}
+
 	// torn: a conn.Write fails in the middle of frame number `good` (write deadline); the frames
 	// sent before it must still be delivered, whatever happens afterwards.
 	torn := func(cid int, good int) {
@@ -829,6 +963,7 @@ func main() {
 		ListenC    *int    `json:"listen_codec"`
 		Torn       *int    `json:"torn"`
 		ObfStack   *int    `json:"obf_stack"`
+		FullStack  *int    `json:"full_stack"`
 		DC         int     `json:"dc"`
 		Good       int     `json:"good"`
 		Concurrent *int    `json:"concurrent"`
@@ -841,6 +976,8 @@ func main() {
 		case rp.Concurrent != nil:
 			concurrent(*rp.Concurrent, rp.Senders, rp.PerSender)
 			raceCheck()
+		case rp.FullStack != nil:
+			fullStack(*rp.FullStack, rp.DC, [][]byte{genPayload(16, -1), genPayload(512, -1), genPayload(8, -1)})
 		case rp.ObfStack != nil:
 			obfStack(*rp.ObfStack, rp.DC, [][]byte{genPayload(16, -1), genPayload(512, -1), genPayload(8, -1)})
 		case rp.Torn != nil:
@@ -1057,6 +1194,20 @@ func main() {
 				ps = append(ps, genPayload(n, -1))
 			}
 			obfStack(cid, []int{2, -2, 10002, 4, -32768}[c.Rng.Intn(5)], ps)
+		}
+	}
+	// ---------- codec over obfuscated2 over FakeTLS ----------
+	for cid := 0; cid < 3; cid++ {
+		for r := 0; r < c.N(5, 150); r++ {
+			var ps [][]byte
+			for k := c.Rng.Range(1, 4); k > 0; k-- {
+				n := 4 * c.Rng.Range(2, 30)
+				if c.Rng.Chance(1, 5) {
+					n = boundary[c.Rng.Intn(len(boundary))]
+				}
+				ps = append(ps, genPayload(n, -1))
+			}
+			fullStack(cid, []int{2, -2, 10002, 4, -32768}[c.Rng.Intn(5)], ps)
 		}
 	}
 	// ---------- a conn.Write that fails in the middle of a frame ----------
